@@ -492,7 +492,7 @@ def m2(ctx, al, module, cfg):
     ctx.log("M2: %d finished cases replayed (%d auto cases undecided by the model skipped), %d disputed" %
             (sum(done.values()), und, len(disputed)))
     if disputed:
-        bad = tracecheck.run_records(ctx, "TextTrace", {"Cases": "{}"}, disputed, invariants=("JudgeRec",),
+        bad = tracecheck.run_records(ctx, "TextTrace", {"Groups": "{}", "CasesOf": "<- NoCases"}, disputed, invariants=("JudgeRec",),
                                      what="X01 disputed replays judged by the specification", chunk=400)
         for i, info in sorted(bad.items()):
             if info and info[0] in ("NOTE", "UNDECIDED"):
@@ -839,7 +839,7 @@ def m3(ctx, al, count):
             continue
         recs.append({"case": case, "out": obs, "strict": True})
         meta.append({"case": brief(case), "route": route, "observed": brief(obs)})
-    bad = tracecheck.run_records(ctx, "TextTrace", {"Cases": "{}"}, recs, invariants=("JudgeRec",),
+    bad = tracecheck.run_records(ctx, "TextTrace", {"Groups": "{}", "CasesOf": "<- NoCases"}, recs, invariants=("JudgeRec",),
                                  what="X01 recorded calls judged by the specification", chunk=400)
     notes = [i for i, info in bad.items() if info and info[0] == "NOTE"]
     undec = [i for i, info in bad.items() if info and info[0] == "UNDECIDED"]
@@ -852,7 +852,8 @@ def m3(ctx, al, count):
         kk = recs[i - 1]["case"]["k"]
         ctx.extra["m3_notes_by_kind"][kk] = ctx.extra["m3_notes_by_kind"].get(kk, 0) + 1
     ctx.log("  notes by kind:", ctx.extra["m3_notes_by_kind"])
-    for i in notes[:3]:
+    shown = set()
+    for i in [j for j in notes if not (recs[j - 1]["case"]["k"] in shown or shown.add(recs[j - 1]["case"]["k"]))][:4]:
         ctx.log("  note:", str(meta[i - 1])[:300])
     if meta:
         ctx.sample({"recorded": meta[0]})
@@ -878,8 +879,8 @@ def check(ctx):
     ]
     if ctx.thorough:
         m2(ctx, al, "TextX01T", "TextX01T.cfg")
-        m3(ctx, al, 6000)
+        m3(ctx, al, 15000)
     else:
         m2(ctx, al, "TextX01Q", "TextX01Q.cfg")
-        m3(ctx, al, 900)
+        m3(ctx, al, 1500)
     ctx.exhaustive = True
